@@ -192,6 +192,9 @@ for _n, _f in _bin.items():
           weight=2.0 if _n in ("add", "sub", "mul") else 1.0)
 
 defop("neg", lambda ns, x: -x, ["IBF"])
+# copies of a traced value are the same value on the same wires (copy.copy / copy.deepcopy of operands and results)
+defop("copy", lambda ns, x: __import__("copy").copy(x), ["IBF"], weight=0.2)
+defop("deepcopy", lambda ns, x: __import__("copy").deepcopy(x), ["IBF"], weight=0.2)
 defop("pos", lambda ns, x: +x, ["IBF"], weight=0.3)
 defop("abs", lambda ns, x: abs(x), ["IBF"], lambda a, cfg, ts: _fits(a[0], cfg["b"] - 1))
 defop("invert", lambda ns, x: ~x, ["IB"], lambda a, cfg, ts: _nonneg(a[0], cfg["b"]))
@@ -433,6 +436,8 @@ class Machine:
 
     def _make_input(self, k, t, v):
         ns = self.ns
+        if isinstance(v, list) and v and v[0] == "pow":
+            v = v[1] ** v[2]        # integers too long to be written out (beyond CPython's int -> str digit limit)
         if t == "I":
             return ns.rt.PrivVal(v) if k == "priv" else ns.rt.PubVal(v)
         if t == "B":
@@ -508,7 +513,7 @@ class Gen:
     """draws statements model-guided by the values the API reports"""
 
     def __init__(self, draw, st, machine, ops=None, p_out_of_domain=0.04, allow_guard=True,
-                 allow_ignore=False, value_strategy=None):
+                 allow_ignore=False, value_strategy=None, wrap_values=True):
         self.draw, self.st, self.m = draw, st, machine
         self.ops = [OPS[n] for n in (ops or OPS)]
         self.pool = [op for op in self.ops for _ in range(max(1, int(round(op.weight * 10))))]
@@ -518,7 +523,7 @@ class Gen:
         self.labels = set()
         self.guard_forms = ["lc", "lc", "lc", "bool"]
         self.allow_lazy = True
-        self.wrap_values = True      # also draw integers at / beyond the field order (congruent to small ones)
+        self.wrap_values = wrap_values      # also draw integers at / beyond the field order (congruent to small ones)
         self.ivals = value_strategy if value_strategy is not None else int_values(st, machine.cfg["b"])
 
     def _pick_weighted(self):
